@@ -1055,6 +1055,10 @@ def _array_equal(ex, args, kwargs, fr):
                 return VBool(num_compare("eq", one[0], sc))
             if len(one) != 1:
                 return VBool(False)
+        if (isinstance(a, VNone) and ex.is_arr(b)) or (isinstance(b, VNone) and ex.is_arr(a)):
+            # np.asarray(None) is a 0-d object array holding None: never equal to a numeric array (a 0-d or all-ones-shaped numeric array
+            # compares element-wise to None -> False)
+            return VBool(False)
         raise Unsupported("array_equal on non-arrays")
     ca, cb = cell(ex, a), cell(ex, b)
     se = shape_eq(ca.shape, cb.shape)
